@@ -29,6 +29,43 @@ def mutate_all(tree):
         pass
 
 
+def reorder(t, how):
+    """an equal tree whose dicts list their keys in another order"""
+    if isinstance(t, dict):
+        ks = sorted(t) if how == "sorted" else list(reversed(list(t)))
+        return {k: reorder(t[k], how) for k in ks}
+    if isinstance(t, list):
+        return [reorder(x, how) for x in t]
+    return t
+
+
+def multi_key_type(t):
+    """a CAST-like call whose type descriptor has several keys (UNSIGNED INTEGER, CHAR CHARACTER SET x, MINUTE TO SECOND)"""
+    if isinstance(t, dict):
+        for k, v in t.items():
+            if k in ("cast", "try_cast", "safe_cast", "validate_conversion") and isinstance(v, list) and len(v) == 2 and isinstance(v[1], dict) and len(v[1]) > 1:
+                return True
+            if multi_key_type(v):
+                return True
+    elif isinstance(t, list):
+        return any(multi_key_type(x) for x in t)
+    return False
+
+
+def key_order_check(ctx, M, desc, t, s1, known):
+    """format returns the same text for equal trees: dict equality does not look at key order"""
+    for how in ("reversed", "sorted"):
+        st, s2 = impl.outcome(M.format, reorder(copy.deepcopy(t), how))
+        if (st, s2 if st == "ok" else None) != s1:
+            if multi_key_type(t) and "C17:format-multi-key-type" in known:
+                k = known["C17:format-multi-key-type"]
+                ctx.known("C17:format-multi-key-type", "%s e.g. %s" % (k["what"], k["witness"]))
+                return 0
+            ctx.violation("input", dict(call=desc, observed="format returned different text for an equal tree (keys listed in %s order)" % how, first=short(s1, 300), second=short(s2, 300)))
+            return 1
+    return 0
+
+
 def run(ctx):
     ctx.rule = ("statements = NULL-position templates + corpus sample + generator, under option combinations; for each: (1) no container of the result is shared with an earlier result of any call, "
                 "with a module-level object, or twice within the result; (2) every container of the result is mutated and the statement and a probe set are parsed again and compared with deep snapshots; "
@@ -42,6 +79,7 @@ def run(ctx):
             ctx.log("formatter writes:", A["formatter_writes"])
     U = impl.build_all()
     M = impl.M
+    known = ctx.finding_keys()
     rnd = ctx.rng("c17")
     stmts = [("common_parser", s) for s in c11.TEMPLATES]
     corp = [(c["parser"], c["sql"]) for c in impl.corpus() if len(c["sql"]) < 800]
@@ -66,6 +104,7 @@ def run(ctx):
         st2, s2 = impl.outcome(M.format, t)
         if (st1, s1 if st1 == "ok" else None) != (st2, s2 if st2 == "ok" else None):
             ctx.violation("input", dict(call=dict(entry=entry, sql=sql), observed="format returned different text the second time", first=short(s1, 300), second=short(s2, 300)))
+        key_order_check(ctx, M, dict(entry=entry, sql=sql), snap, (st1, s1 if st1 == "ok" else None), known)
     seen_ids = {}          # id -> description of the earlier result holding it (kept alive in `alive`)
     alive = []
     snapshots = []         # (description, tree object, deep snapshot)
@@ -97,6 +136,7 @@ def run(ctx):
         st2, s2 = impl.outcome(M.format, copy.deepcopy(snap))
         if (st1, s1 if st1 == "ok" else None) != (st2, s2 if st2 == "ok" else None):
             ctx.violation("input", dict(call=desc, observed="format returned different text for equal trees", first=short(s1, 300), second=short(s2, 300))); found += 1
+        found += key_order_check(ctx, M, desc, snap, (st1, s1 if st1 == "ok" else None), known)
         # (2) mutate every container, parse again
         fresh_before = [impl.outcome(impl.ENTRY[e], q) for e, q in probes]
         mutate_all(t)
